@@ -48,11 +48,17 @@ type c15Leaf struct {
 	P    Path
 	V1   Leaf
 	V2   Leaf
+	// the same two values as a device reports them when it sends native typed values (gNMI proto encoding), if
+	// that differs from the string form
+	D1, D2 *sdcpb.TypedValue
 }
 
 func c15Leaves() []c15Leaf {
 	mk := func(name string, v1, v2 Leaf) c15Leaf { return c15Leaf{Name: name, P: v1.P, V1: v1, V2: v2} }
-	return []c15Leaf{
+	uintTV := func(v uint64) *sdcpb.TypedValue { return &sdcpb.TypedValue{Value: &sdcpb.TypedValue_UintVal{UintVal: v}} }
+	boolTV := func(v bool) *sdcpb.TypedValue { return &sdcpb.TypedValue{Value: &sdcpb.TypedValue_BoolVal{BoolVal: v}} }
+	dev := func(l c15Leaf, d1, d2 *sdcpb.TypedValue) c15Leaf { l.D1, l.D2 = d1, d2; return l }
+	ls := []c15Leaf{
 		mk("string", leaf("r1", "sys", "hostname"), leaf("r2", "sys", "hostname")),
 		mk("uint16", leaf("1500", "sys", "mtu"), leaf("9000", "sys", "mtu")),
 		mk("list-leaf", leaf("one", "if", e1, "descr"), leaf("two", "if", e1, "descr")),
@@ -62,8 +68,20 @@ func c15Leaves() []c15Leaf {
 		mk("leaf-list-prefix", leafLL([]string{"a", "b"}, "if", e1, "tags"), leafLL([]string{"a", "b", "c"}, "if", e1, "tags")),
 		mk("decimal64", leaf("1.5", "types", "d1"), leaf("-2.5", "types", "d1")),
 		mk("identityref", leaf("tcp", "types", "idr"), leaf("udp", "types", "idr")),
+		mk("leafref-to-uint", leaf("1500", "refs", "mtu-ref"), leaf("9000", "refs", "mtu-ref")),
 		mk("uint64", leaf("4294967296", "types", "u64"), leaf("9223372036854775807", "types", "u64")), // values above 2^63 are C12's business
 	}
+	for i := range ls {
+		switch ls[i].Name {
+		case "uint16", "leafref-to-uint":
+			ls[i] = dev(ls[i], uintTV(1500), uintTV(9000))
+		case "bool":
+			ls[i] = dev(ls[i], boolTV(true), boolTV(false))
+		case "uint64":
+			ls[i] = dev(ls[i], uintTV(4294967296), uintTV(9223372036854775807))
+		}
+	}
+	return ls
 }
 
 var c15Owners = []struct {
@@ -85,14 +103,77 @@ func (u *Universe) typed(l Leaf) (*sdcpb.TypedValue, []byte, error) {
 	return tv, b, err
 }
 
+// typedIntent types a value the way the request pipeline does before it stores an intent, typedRunning the way the
+// sync pipeline does before it stores what the device reported: the two differ for some types (a leafref to a
+// uint16 is kept as a string by the former and converted to the target type by the latter), and the deviation
+// cycle has to see through that.
+var (
+	c15TypeMu    sync.Mutex
+	c15TypeCache = map[string][]byte{}
+)
+
+func c15TypedIntent(w *World, l Leaf) ([]byte, error) {
+	k := "I|" + l.P.String() + "|" + l.CanonValue()
+	c15TypeMu.Lock()
+	b, ok := c15TypeCache[k]
+	c15TypeMu.Unlock()
+	if ok {
+		return b, nil
+	}
+	ti, err := w.DS.SdcpbTransactionIntentToInternalTI(context.Background(), &sdcpb.TransactionIntent{Intent: "typing", Priority: 1,
+		Update: []*sdcpb.Update{{Path: l.P.Sdcpb(), Value: l.Value()}}})
+	if err != nil {
+		return nil, err
+	}
+	want := strings.Join(utils.ToStrings(l.P.Sdcpb(), false, false), "\x00")
+	for _, up := range ti.GetUpdates() {
+		if strings.Join(up.GetPath(), "\x00") == want {
+			b = up.Bytes()
+			c15TypeMu.Lock()
+			c15TypeCache[k] = b
+			c15TypeMu.Unlock()
+			return b, nil
+		}
+	}
+	return nil, fmt.Errorf("request pipeline produced no update for %s", l.P)
+}
+
+func c15TypedRunning(w *World, l Leaf) ([]byte, error) {
+	k := fmt.Sprintf("R|%s|%s|%T", l.P.String(), l.CanonValue(), l.Value().GetValue())
+	c15TypeMu.Lock()
+	b, ok := c15TypeCache[k]
+	c15TypeMu.Unlock()
+	if ok {
+		return b, nil
+	}
+	conv := utils.NewConverter(w.DS.VerifSchemaClient())
+	n, err := conv.ConvertNotificationTypedValues(context.Background(), &sdcpb.Notification{Update: []*sdcpb.Update{{Path: l.P.Sdcpb(), Value: l.Value()}}})
+	if err != nil {
+		return nil, err
+	}
+	if len(n.GetUpdate()) != 1 {
+		return nil, fmt.Errorf("sync conversion produced %d updates for %s", len(n.GetUpdate()), l.P)
+	}
+	b, err = proto.Marshal(n.GetUpdate()[0].GetValue())
+	if err != nil {
+		return nil, err
+	}
+	c15TypeMu.Lock()
+	c15TypeCache[k] = b
+	c15TypeMu.Unlock()
+	return b, nil
+}
+
 type c15Cell struct {
 	leaf    c15Leaf
 	running int    // 0 absent, 1 v1, 2 v2
 	intents [3]int // per owner
+	rep     int // representation of the running value: 0 as sync stores a value the device sent as text, 1 as a transaction writes it back (intent typing), 2 as sync stores a native typed value of the device
 }
 
 func (c c15Cell) String() string {
-	return fmt.Sprintf("%s{run=%d A=%d B=%d C=%d}", c.leaf.Name, c.running, c.intents[0], c.intents[1], c.intents[2])
+	wb := map[int]string{0: "", 1: "(written back)", 2: "(device typed)"}[c.rep]
+	return fmt.Sprintf("%s{run=%d%s A=%d B=%d C=%d}", c.leaf.Name, c.running, wb, c.intents[0], c.intents[1], c.intents[2])
 }
 
 func devKey(reason, intent, path, expected, current string) string {
@@ -145,7 +226,7 @@ func runC15() int {
 	}
 	rep := NewReporter("C15", "exploration")
 	rep.Assumptions = []string{
-		"store contents are written directly into the CONFIG and INTENDED stores of the real cache (drift must be expressible), typed the way the request pipeline types them; one deviation cycle per content through the VerifRunDeviationCycle hook and a recording stream",
+		"store contents are written directly into the CONFIG and INTENDED stores of the real cache (drift must be expressible), intent values typed by the real request pipeline (SdcpbTransactionIntentToInternalTI), running values typed by the real sync conversion (ConvertNotificationTypedValues) and, as a second variant, the way a transaction writes them back (intent typing); one deviation cycle per content through the VerifRunDeviationCycle hook and a recording stream",
 		"OVERRULED messages are compared as (intent, path, the intent's own value, the ruling value); NOT_APPLIED as (ruling intent, path, ruling value, running value or none)",
 	}
 	leaves := c15Leaves()
@@ -156,7 +237,13 @@ func runC15() int {
 			for a := 0; a < 3; a++ {
 				for b := 0; b < 3; b++ {
 					for c := 0; c < 3; c++ {
-						cells = append(cells, []c15Cell{{l, r, [3]int{a, b, c}}})
+						cells = append(cells, []c15Cell{{l, r, [3]int{a, b, c}, 0}})
+						if r != 0 {
+							cells = append(cells, []c15Cell{{l, r, [3]int{a, b, c}, 1}})
+							if l.D1 != nil {
+								cells = append(cells, []c15Cell{{l, r, [3]int{a, b, c}, 2}})
+							}
+						}
 					}
 				}
 			}
@@ -170,8 +257,8 @@ func runC15() int {
 	for _, pr := range pairs {
 		for x := 0; x < 81; x++ {
 			for y := 0; y < 81; y++ {
-				cx := c15Cell{leaves[pr[0]], x % 3, [3]int{x / 3 % 3, x / 9 % 3, x / 27}}
-				cy := c15Cell{leaves[pr[1]], y % 3, [3]int{y / 3 % 3, y / 9 % 3, y / 27}}
+				cx := c15Cell{leaves[pr[0]], x % 3, [3]int{x / 3 % 3, x / 9 % 3, x / 27}, 0}
+				cy := c15Cell{leaves[pr[1]], y % 3, [3]int{y / 3 % 3, y / 9 % 3, y / 27}, 0}
 				if Tier() != "thorough" && (cx.intents[2] != 0 || cy.intents[0] != 0) {
 					continue
 				}
@@ -215,7 +302,18 @@ func runC15() int {
 						return c.leaf.V2
 					}
 					if c.running != 0 {
-						_, b, err := u.typed(pick(c.running))
+						b, err := c15TypedRunning(w, pick(c.running))
+						switch c.rep {
+						case 1:
+							b, err = c15TypedIntent(w, pick(c.running))
+						case 2:
+							l := pick(c.running)
+							l.TV, l.Canon = c.leaf.D1, l.CanonValue()
+							if c.running == 2 {
+								l.TV = c.leaf.D2
+							}
+							b, err = c15TypedRunning(w, l)
+						}
 						if err != nil {
 							bad = true
 							break
@@ -227,7 +325,7 @@ func runC15() int {
 						if v == 0 {
 							continue
 						}
-						_, b, err := u.typed(pick(v))
+						b, err := c15TypedIntent(w, pick(v))
 						if err != nil {
 							bad = true
 							break
